@@ -247,6 +247,7 @@ Event ==
               /\ bad' = bad
                    \cup (IF st[k] = "idle" THEN Flag("C08", "receive-without-connect") ELSE {})
                    \cup (IF st[k] = "done" THEN Flag("C08", "event-after-the-end") ELSE {})
+                   \cup (IF st[k] \in {"idle", "done"} THEN Flag("C09", "delivery-after-the-terminal-event") ELSE {})
                    \cup (IF Cur.uid < 0 \/ ~Cur.match THEN Flag("C08", "received-payload-never-sent") ELSE {})
               /\ relWait' = [relWait EXCEPT ![o] = @ \ {Cur.uid}]
               /\ UNCHANGED sentOn
@@ -255,8 +256,10 @@ Event ==
               /\ bad' = bad
                    \cup (IF st[k] = "idle" THEN Flag("C08", "disconnect-without-connect") ELSE {})
                    \cup (IF st[k] = "done" THEN Flag("C08", "event-after-the-end") ELSE {})
-                   \* the other side asked for a flushing disconnect and this side did not disconnect itself
-                   \cup (IF st[k] = "conn" /\ closing[o] = "flush" /\ closing[k] = "" /\ mustDeliver[o] \cap relWait[o] # {}
+                   \* the other side asked for a flushing disconnect, really put its DISCONNECT on the wire (a forged
+                   \* DISCONNECT from its address ends the connection too, but that is not the library's doing) and
+                   \* this side did not disconnect itself
+                   \cup (IF st[k] = "conn" /\ closing[o] = "flush" /\ discAt[o] >= 0 /\ closing[k] = "" /\ mustDeliver[o] \cap relWait[o] # {}
                          THEN Flag("C09", "peer-saw-disconnect-before-earlier-reliable-packets") ELSE {})
               /\ st' = [st EXCEPT ![k] = IF side = "C" THEN "done" ELSE "idle"]
               /\ UNCHANGED <<used, sAccepted, cAccepted, verified, lastHeard, closing, relWait, sentOn, mustDeliver, discAt, discCount, nData>>
